@@ -902,7 +902,225 @@ def p_inmem_p2sh_p2wpkh(n_inputs):
     return p_reserialize_strict(b)
 
 
-PROPS = {"workflow": p_workflow, "inmem_p2sh_p2wpkh": p_inmem_p2sh_p2wpkh, "reserialize": p_reserialize, "segwit_flag": p_segwit_flag,
+# ---- ONE PSBT object used repeatedly: serialise, sign, combine, finalise, edit, serialise again
+# Oracle for "what a fresh object would write": mk_psbt(un_psbt(p)) builds a brand-new object graph from the
+# DECLARED fields of p (never through parse or a constructor), so whatever else p has accumulated (memoised
+# bytes, hashes, digests) is not carried over.
+
+
+def _stale(p, where):
+    """serialize() twice on the object and once on a new object with the same field values"""
+    s1 = p.serialize()
+    s2 = p.serialize()
+    if s1 != s2:
+        return f"{where}: two consecutive serialize() calls on one object give different bytes"
+    ref = mk_psbt(un_psbt(p)).serialize()
+    if s1 != ref:
+        return f"{where}: serialize() of the used object differs from serialize() of a new object with the same fields"
+    try:
+        back = reparse(s1).serialize()
+    except Exception as e:  # noqa
+        return f"{where}: the bytes written by the used object do not load: {type(e).__name__}: {e}"
+    if back != s1:
+        return f"{where}: parse/serialize of the bytes written by the used object is not the identity"
+    return None
+
+
+def p_reuse_workflow(kind_i, m, n, n_inputs, flags, perm):
+    """flags as in p_workflow; perm selects the order of the signers.  Every step is done on ONE object that has
+    already been serialised, and compared with the same step done on freshly parsed objects."""
+    from buidl.timelock import Locktime
+    kind = KINDS[kind_i]
+    extras, hd = bool(flags & 1), bool(flags & 2)
+    w = Wallet(kind, m, n, first_key=(kind_i * 5 + m + 3 * n + 1) % 11, hd=hd)
+    single = kind in ("p2pkh", "p2wpkh", "p2sh-p2wpkh")
+    need = 1 if single else m
+    nsig = 1 if single else n
+    base = build_psbt(w, n_inputs, salt=kind_i * 16 + m * 4 + n + 1, extras=extras).serialize()
+    orders = list(itertools.permutations(range(nsig)))
+    order = orders[perm % len(orders)]
+    signed_by = {j: sign_as(base, w, j) for j in range(nsig)}
+
+    def sign_in_place(p, j):
+        return p.sign(w.roots[j]) if w.hd else p.sign_with_private_keys([w.privs[j]])
+
+    with contextlib.redirect_stdout(io.StringIO()):
+        # A. one object handed from signer to signer, serialised after every signature
+        p = reparse(base)
+        r = _stale(p, "freshly parsed")
+        if r:
+            return r
+        cur = base
+        for j in order:
+            if not sign_in_place(p, j):
+                return f"signer {j} found nothing to sign on the reused object"
+            cur = sign_as(cur, w, j)
+            r = _stale(p, f"after signer {j} signed the reused object")
+            if r:
+                return r
+            if p.serialize() != cur:
+                return f"signing the reused object (signer {j}) and signing a freshly parsed PSBT give different bytes"
+        # B. one accumulator, combined in two orders, serialised after every combine
+        finals = []
+        for od in (order, tuple(reversed(order))):
+            acc = reparse(base)
+            acc.serialize()
+            for k, j in enumerate(od):
+                acc.combine(reparse(signed_by[j]))
+                r = _stale(acc, f"accumulator after combining {od[:k + 1]}")
+                if r:
+                    return r
+                if acc.serialize() != combine_bytes(base, [signed_by[i] for i in od[:k + 1]]):
+                    return f"accumulator after combining {od[:k + 1]} differs from a fresh combine of the same PSBTs"
+            before = acc.serialize()
+            acc.combine(reparse(before))          # combining its own bytes changes nothing
+            acc.combine(reparse(base))
+            if acc.serialize() != before:
+                return "combining a PSBT with its own serialisation / with the unsigned PSBT changed it"
+            finals.append((acc, before))
+        if finals[0][1] != finals[1][1] or finals[0][1] != cur:
+            return "the combined PSBT depends on the order of combining / differs from the hand-to-hand PSBT"
+        # C. finalise and extract on the used accumulators (only `need` signers on the second one)
+        for which, (acc, comb) in enumerate(finals):
+            if which == 1 and nsig > need:
+                acc = reparse(base)
+                acc.serialize()
+                for j in order[:need]:
+                    acc.combine(reparse(signed_by[j]))
+                comb = acc.serialize()
+            fb, txb, _ = finalise_bytes(comb)
+            acc.finalize()
+            r = _stale(acc, "after finalize() on the used object")
+            if r:
+                return r
+            if acc.serialize() != fb:
+                return "finalize() on the used object and on a freshly parsed PSBT give different bytes"
+            for k in range(2):
+                if acc.final_tx().serialize() != txb:
+                    return f"final_tx() call {k} on the used object differs from the transaction of a fresh PSBT"
+            if acc.serialize() != fb:
+                return "final_tx() changed the PSBT"
+        # too few signers: finalize must fail on a used object as it does on a fresh one
+        if need >= 2:
+            few = reparse(combine_bytes(base, [signed_by[order[0]]]))
+            few.serialize()
+            few.combine(reparse(base))
+            try:
+                few.finalize()
+                few.final_tx()
+            except Exception:  # noqa
+                pass
+            else:
+                return "finalize/final_tx succeeded on a used object with fewer than the required signers"
+        # D. in-place edits of a parsed and already serialised object
+        q = reparse(cur)
+        q.serialize()
+        q.tx_obj.hash()
+        edits = [
+            ("global unknown entry added", lambda: q.extra_map.__setitem__(b"\xfc\x03abc", b"later")),
+            ("input unknown entry added", lambda: q.psbt_ins[0].extra_map.__setitem__(b"\x0f\x07", b"x" * 5)),
+            ("output unknown entry added", lambda: q.psbt_outs[-1].extra_map.__setitem__(b"\xfc\x01z", b"")),
+            ("sighash type set", lambda: setattr(q.psbt_ins[-1], "hash_type", 1)),
+            ("a partial signature removed", lambda: q.psbt_ins[0].sigs.pop(sorted(q.psbt_ins[0].sigs)[0])),
+            ("output derivations removed", lambda: q.psbt_outs[-1].named_pubs.clear()),
+            ("input unknown entry changed", lambda: q.psbt_ins[0].extra_map.__setitem__(b"\x0f\x07", b"y")),
+            ("all partial signatures removed", lambda: [pi.sigs.clear() for pi in q.psbt_ins]),
+        ]
+        for what, f in edits:
+            v0, s0 = un_psbt(q), q.serialize()
+            f()
+            r = _stale(q, "after edit: " + what)
+            if r:
+                return r
+            if (q.serialize() != s0) != (un_psbt(q) != v0):
+                return f"after edit: {what}: serialize() {'changed' if q.serialize() != s0 else 'did not change'}"
+        # E. the unsigned transaction edited in place: it is another transaction now
+        q.tx_obj.locktime = Locktime((int(q.tx_obj.locktime) + 1) % 2 ** 32)
+        r = _stale(q, "after edit: locktime of the unsigned transaction")
+        if r:
+            return r
+        for other in (reparse(base), reparse(signed_by[order[0]])):
+            try:
+                q.combine(other)
+            except ValueError:
+                continue
+            return "combine accepted a PSBT for a different transaction (unsigned transaction edited in place after hash())"
+        q.tx_obj.locktime = Locktime((int(q.tx_obj.locktime) - 1) % 2 ** 32)
+        q.combine(reparse(cur))                  # the same transaction again: the signatures come back
+        r = _stale(q, "after restoring the locktime and combining with the signed PSBT")
+        if r:
+            return r
+        if [pi.sigs for pi in q.psbt_ins] != [pi.sigs for pi in reparse(cur).psbt_ins]:
+            return "after restoring the locktime, combine did not bring the partial signatures back"
+    return None
+
+
+def p_stage_orders(kind_i, m, n, n_inputs, flags):
+    """Order independence over PSBTs taken at DIFFERENT stages of the workflow: the Creator's bare PSBT (no
+    update), the updated PSBT and the PSBT signed by each signer of a subset are combined with each of them as the
+    accumulator and the others in every order (flags bit 3 clear: for five PSBTs six orders per accumulator).
+    Every result must be byte-identical to the updated PSBT combined with the signed ones, finalise exactly when
+    enough signers took part, and give the same final transaction.  flags bit 0 extras, bit 1 HD wallet."""
+    kind = KINDS[kind_i]
+    extras, hd, exhaustive = bool(flags & 1), bool(flags & 2), bool(flags & 8)
+    w = Wallet(kind, m, n, first_key=(kind_i * 5 + m + 3 * n + 2) % 11, hd=hd)
+    single = kind in ("p2pkh", "p2wpkh", "p2sh-p2wpkh")
+    need = 1 if single else m
+    nsig = 1 if single else n
+    with contextlib.redirect_stdout(io.StringIO()):
+        p0 = build_psbt(w, n_inputs, salt=kind_i * 16 + m * 4 + n + 2, extras=extras)
+        base = p0.serialize()
+        bare = PSBT.create(Tx.parse(BytesIO(p0.tx_obj.serialize_legacy()), network="mainnet")).serialize()
+        signed = {j: sign_as(base, w, j) for j in range(nsig)}
+        subs = [tuple(range(nsig))]
+        for s in (tuple(range(nsig))[-need:], (nsig - 1,), ()):
+            if s not in subs:
+                subs.append(s)
+        for sub in subs:
+            stages = [("bare", bare), ("updated", base)] + [("signed by %d" % j, signed[j]) for j in sub]
+            want = combine_bytes(base, [signed[j] for j in sub])
+            others = {name: reparse(b) for name, b in stages}       # never modified by combine: reused
+            try:
+                fb, txb, t = finalise_bytes(want)
+                final = txb
+            except Exception:  # noqa
+                final = None
+            if (final is not None) != (len(sub) >= need):
+                return (f"{kind} {m}-of-{n}, signers {sub}: finalize/final_tx "
+                        + ("succeeded with fewer than the required signers" if final else "failed"))
+            for ai, (aname, ab) in enumerate(stages):
+                rest = stages[:ai] + stages[ai + 1:]
+                if len(rest) <= 3 or exhaustive:
+                    orders = list(itertools.permutations(rest))
+                else:
+                    orders = [tuple(rest[k:] + rest[:k]) for k in range(len(rest))] + [tuple(reversed(rest)),
+                                                                                       tuple(rest[1::-1] + rest[:1:-1])]
+                for order in orders:
+                    acc = reparse(ab)
+                    for oname, _ in order:
+                        acc.combine(others[oname])
+                    got = acc.serialize()
+                    if got != want:
+                        try:
+                            gfin = finalise_bytes(got)[1]
+                        except Exception:  # noqa
+                            gfin = None
+                        fin_txt = ("does not finalise" if gfin is None else "finalises") + \
+                            (", the reference does not finalise" if final is None else
+                             ", the reference finalises" + ("" if gfin is None else
+                                                            " to the same transaction" if gfin == final else
+                                                            " to ANOTHER transaction"))
+                        return (f"{kind} {m}-of-{n}, signers {sub}: accumulator '{aname}' combined with "
+                                f"{[o for o, _ in order]} differs from the updated PSBT combined with the signed "
+                                f"ones ({fin_txt})")
+            for name, b in stages:
+                if others[name].serialize() != b:
+                    return f"{kind} {m}-of-{n}: combine modified the PSBT ('{name}') that was passed as its argument"
+    return None
+
+
+PROPS = {"workflow": p_workflow, "reuse_workflow": p_reuse_workflow, "stage_orders": p_stage_orders,
+         "inmem_p2sh_p2wpkh": p_inmem_p2sh_p2wpkh, "reserialize": p_reserialize, "segwit_flag": p_segwit_flag,
          "scriptsig_rejected": p_scriptsig_rejected, "bad_sig": p_bad_sig,
          "finalize_threshold": p_finalize_threshold, "xpub_order": p_xpub_order,
          "nonwitness_utxo_segwit": p_nonwitness_utxo_segwit}
@@ -1148,6 +1366,37 @@ def workflow_grid(ctx):
     return grid
 
 
+def stage_grid(ctx):
+    """(kind, m, n, inputs, flags) for p_stage_orders: all six script types, 2-of-3 for the multisig ones"""
+    quick = ctx.tier == "quick"
+    grid = [(0, 1, 1, 1, 0), (1, 1, 1, 2, 1), (2, 1, 1, 1, 1)]
+    for kind_i in (3, 4, 5):
+        grid.append((kind_i, 2, 3, 1, (1 if kind_i != 4 else 0) | (0 if quick else 8)))
+        grid.append((kind_i, 1, 2, 2, 0))
+    grid.append((5, 2, 2, 1, 2 | 1))          # HD wallet with global xpubs
+    if not quick:
+        for kind_i in (3, 4, 5):
+            grid += [(kind_i, 1, 1, 1, 0), (kind_i, 2, 2, 2, 1), (kind_i, 3, 3, 1, 8), (kind_i, 1, 3, 1, 8),
+                     (kind_i, 2, 4, 1, 0)]
+        grid += [(0, 1, 1, 3, 1), (1, 1, 1, 3, 0), (2, 1, 1, 2, 0), (3, 2, 3, 2, 2), (4, 2, 3, 1, 2 | 1)]
+    return grid
+
+
+def reuse_grid(ctx):
+    """(kind, m, n, inputs, flags, order of signers) for the reused-object workflow"""
+    grid = [(0, 1, 1, 2, 1, 0), (1, 1, 1, 1, 0, 0), (2, 1, 1, 2, 1, 0),
+            (3, 2, 3, 1, 1, 1), (4, 2, 3, 1, 0, 4), (5, 2, 2, 2, 1, 1),
+            (4, 2, 2, 1, 2 | 1, 0)]                      # HD wallet with global xpubs, PSBT.sign(hd_priv)
+    if ctx.tier != "quick":
+        for kind_i in (3, 4, 5):
+            for n in (1, 2, 3):
+                for m in range(1, n + 1):
+                    for perm in (0, 3, 5):
+                        grid.append((kind_i, m, n, 1 + (m + n + perm) % 2, perm % 2, perm))
+        grid += [(3, 2, 2, 1, 2, 1), (5, 1, 2, 2, 2 | 1, 1), (0, 1, 1, 3, 0, 0), (1, 1, 1, 3, 1, 0)]
+    return list(dict.fromkeys(grid))
+
+
 def stage_cases(ctx, kind_i, m, n, n_inputs, flags):
     """correspondence cases on the objects of one workflow: serialize / parse / validate / combine /
     finalize / assemble_tx"""
@@ -1199,6 +1448,14 @@ def generate(ctx):
     yield ("prop", "xpub_order", [1])
     for kind_i in (1, 2, 4, 5):
         yield ("prop", "nonwitness_utxo_segwit", [kind_i])
+    # ---- combine over PSBTs of different workflow stages (bare, updated, signed), every accumulator, every order
+    for g in stage_grid(ctx):
+        ctx.label(f"stage-orders/{KINDS[g[0]]}")
+        yield ("prop", "stage_orders", list(g))
+    # ---- the workflow on ONE reused object per role (signer, accumulator, finaliser, editor)
+    for g in reuse_grid(ctx):
+        ctx.label(f"reuse-workflow/{KINDS[g[0]]}")
+        yield ("prop", "reuse_workflow", list(g))
     # ---- generic key-value layer and hand-made maps
     yield from kv_cases(ctx)
     yield from in_map_synthetic(ctx)
